@@ -7,8 +7,16 @@ pub fn shrink(
 	max_evals: usize,
 ) -> (Vec<u32>, usize) {
 	let mut evals = 0usize;
+	// (a wall-clock cap next to the evaluation cap: reproducing a failure can itself be slow, e.g.
+	// "the thread has not ended after 2 s"; an unfinished shrink only leaves a longer replay)
+	let started = std::time::Instant::now();
+	let budget = std::time::Duration::from_secs(std::env::var("KVERIF_SHRINK_S").ok().and_then(|v| v.parse().ok()).unwrap_or(90));
 	let mut try_candidate = |cand: &[u32], evals: &mut usize| -> bool {
 		if *evals >= max_evals {
+			return false;
+		}
+		if started.elapsed() > budget {
+			*evals = max_evals;
 			return false;
 		}
 		*evals += 1;
